@@ -528,7 +528,7 @@ impl Sim for SimG {
         vec!["plain_schedule(no spurious yields)", "seeded_spurious_yields_and_tie_heavy_pacing"]
     }
     fn default_runs(&self) -> (u64, u64) {
-        (600, 40_000)
+        (40_000, 1_500_000)
     }
 
     fn plan(&self, rng: &mut Rng, sub: usize) -> ScenarioG {
